@@ -43,6 +43,8 @@ var verifSkels = []string{
 	"BFsAs", // 26 fn(sel) op agg(sel)
 	"BAsv",  // 27 agg(sel) op vector(k)
 	"BvAs",  // 28 vector(k) op agg(sel)
+	"BFAsAs", // 29 fn(agg(sel)) op agg(sel)
+	"BAsFAs", // 30 agg(sel) op fn(agg(sel))
 }
 
 // verifMayGuarantee: some construct below n makes pint "guarantee" label l in the concrete shape: a positive matcher
@@ -98,6 +100,31 @@ func verifConstLike(n *vNode) bool {
 		return verifConstLike(n.l) && verifConstLike(n.r)
 	}
 	return verifConstLike(n.l)
+}
+
+// Finding "constants folded through value-changing operations": KnownReturn / ReturnedNumber of vector(k) survive
+// aggregations and functions that change the sample value (count, group, stddev, stdvar, count_values, timestamp,
+// ...), so `count(vector(0)) == 1` is folded as `0 == 1`.
+func verifValueChanging(n *vNode) bool {
+	if n == nil {
+		return false
+	}
+	switch n.kind {
+	case 'A':
+		switch n.aopItem {
+		case promParser.COUNT, promParser.GROUP, promParser.STDDEV, promParser.STDVAR, promParser.COUNT_VALUES:
+			return true
+		}
+	case 'F':
+		if n.fn != vFnReplace && n.fnName != "abs" && n.fnName != "ceil" && n.fnName != "sort" {
+			return true
+		}
+	}
+	return verifValueChanging(n.l) || verifValueChanging(n.r)
+}
+
+func verifSigConstThrough(root *vNode) bool {
+	return verifConstLike(root.l) && verifConstLike(root.r) && (verifValueChanging(root.l) || verifValueChanging(root.r))
 }
 
 func verifSigStaticBool(root *vNode) bool {
@@ -166,17 +193,58 @@ func verifSigOnAbsent(root *vNode) bool {
 	return false
 }
 
+// Finding "function re-guarantees a label that an aggregation removed": parsePromQLFunc ends most cases with
+// guaranteeLabel(s, labelsFromSelectors(..., s.Selector)), which puts the selector's positive-matcher labels back
+// into GuaranteedLabels (and takes them out of ExcludedLabels) even when an aggregation in between removed them.
+func verifAggRemoves(n *vNode, l int) bool {
+	if n == nil {
+		return false
+	}
+	if n.kind == 'A' && n.aop != vAggTopk && !(n.aop == vAggCountV && n.cvl == l) && verifMayGuarantee(n.l, l) {
+		if n.cwithout == n.cgrp[l] {
+			return true
+		}
+	}
+	return verifAggRemoves(n.l, l) || verifAggRemoves(n.r, l)
+}
+
+func verifFnOverRemoval(n *vNode, l int) bool {
+	if n == nil {
+		return false
+	}
+	if n.kind == 'F' && n.fn != vFnReplace && verifAggRemoves(n.l, l) {
+		return true
+	}
+	return verifFnOverRemoval(n.l, l) || verifFnOverRemoval(n.r, l)
+}
+
+func verifSigReguarantee(root *vNode) bool {
+	if !root.vectorBinary() {
+		return false
+	}
+	for l := 0; l < verifNL; l++ {
+		if verifFnOverRemoval(root.l, l) || verifFnOverRemoval(root.r, l) {
+			return true
+		}
+	}
+	return false
+}
+
 const (
+	vSigReguar = "C12-function-reguarantees-aggregated-label"
 	vSigF2         = "C12-ignoring-group-guaranteed"
 	vSigStaticBool = "C12-static-comparison-ignores-bool"
 	vSigOrLHS      = "C12-or-lhs-always-returns"
 	vSigOnAbsent   = "C12-on-label-absent-on-both-sides"
+	vSigConstThru  = "C12-constant-folded-through-value-changing-op"
 )
 
 // signatures are set per claim: kind 0 = folded constant comparison, 1 = canJoin, 2 = right side of `or`
 func verifSetSigs(root *vNode, kind int) {
 	verifSetSig(vSigStaticBool, kind == 0 && verifSigStaticBool(root))
+	verifSetSig(vSigConstThru, kind == 0 && verifSigConstThrough(root))
 	verifSetSig(vSigF2, kind == 1 && verifSigF2(root))
+	verifSetSig(vSigReguar, kind == 1 && verifSigReguarantee(root))
 	verifSetSig(vSigOnAbsent, kind == 1 && verifSigOnAbsent(root))
 	verifSetSig(vSigOrLHS, kind == 2 && verifSigOrLHS(root))
 }
